@@ -1,5 +1,6 @@
 import Gallia.Proofs.Lemmas.DbLog
 import Gallia.Proofs.Lemmas.DbLogMulti
+import Gallia.Proofs.Lemmas.DbTables
 import Gallia.Gen.C11Tables
 /-
   C11 — Every exchange is recorded once, in order and byte-exact, in the scan database.
@@ -13,7 +14,7 @@ import Gallia.Gen.C11Tables
   cancellation point.
 -/
 namespace Gallia.C11
-open Gallia Gallia.DbLog
+open Gallia Gallia.DbLog Gallia.DbTables
 
 /-! ### what the specification fold contains -/
 
@@ -323,6 +324,60 @@ theorem cancelled_waiter_row (s : MSys) (i : Nat) (t : Task) (t0 : Nat) (e : Exc
   refine ⟨by simp [logCall_calls], by simp [logCall_wire], ?_⟩
   simp [logCall_all]
 
+/-! ### the other tables of the run: run_meta, address, scan_run, discovery_*, session_transition
+
+  `texec (TSys.init db prog) sched`: `db` is whatever earlier runs left in the file (any database whose keys resolve),
+  `prog` *any* sequence of `DBHandler` API calls - in lifecycle order or not, prerequisites missing or not - and `sched` any
+  interleaving of the run task's awaited steps, a cancellation delivered at any of them (the statement already handed to the
+  connection thread is still executed, the Python-side assignment is not), and the writer task's steps and write failures. -/
+
+/-- **referential integrity, every program, every schedule, every cancellation point.**  After `disconnect()` - and also in
+    what is durable at any moment (what another reader of the file sees, and all that is left when `disconnect()` itself is
+    interrupted) - every `scan_result.run` exists in `scan_run`, every `scan_run.meta` in `run_meta`, every
+    `scan_run.address` in `address`, every `session_transition.run` in `scan_run`, every `discovery_run.meta` in `run_meta`,
+    every `discovery_result.run` / `.address` in `discovery_run` / `address`. -/
+theorem foreign_keys_resolve (db : Tables) (hdb : db.fkOk) (prog : List Op) (sched : List TChoice) :
+    (afterDisconnectT (texec (TSys.init db prog) sched)).fkOk ∧
+    (afterInterruptedDisconnectT (texec (TSys.init db prog) sched)).fkOk := by
+  have hi := (TInv.init db prog hdb).exec sched
+  refine ⟨?_, hi.fkCom⟩
+  unfold afterDisconnectT
+  apply appendResults_fk _ _ hi.fkTxn
+  intro x hx
+  unfold TSys.pending at hx
+  simp only [List.mem_append] at hx
+  rcases hx with hx | hx
+  · split at hx
+    · next r hr he => simp at hx; subst hx; exact hi.inflight _ hr
+    · simp at hx
+  · exact hi.queue x hx
+
+/-- the same spelled out for the three references the replay of C12 joins over -/
+theorem scan_result_references_resolve (db : Tables) (hdb : db.fkOk) (prog : List Op) (sched : List TChoice) :
+    let t := afterDisconnectT (texec (TSys.init db prog) sched)
+    (∀ r ∈ t.scanResult, r.2.1 ∈ t.scanRun.map (·.1)) ∧ (∀ r ∈ t.scanRun, r.2.2 ∈ t.runMeta) ∧
+    (∀ r ∈ t.sessionTransition, r.1 ∈ t.scanRun.map (·.1)) := by
+  have h := (foreign_keys_resolve db hdb prog sched).1
+  exact ⟨h.2.2.2.1, fun r hr => (h.1 r hr).1, h.2.2.2.2⟩
+
+/-- the writer task never meets a constraint violation (which it would not survive: "Database worker died", every later
+    row lost): the scan run a queued row refers to was inserted before the row was queued and nothing is ever deleted -/
+theorem writer_never_dies (db : Tables) (hdb : db.fkOk) (prog : List Op) (sched : List TChoice) :
+    (texec (TSys.init db prog) sched).writerDead = false :=
+  ((TInv.init db prog hdb).exec sched).alive
+
+/-- ids are unique in every table (and `address.url` is), whatever earlier runs left in the file -/
+theorem primary_keys_unique (db : Tables) (hdb : db.keysOk) (prog : List Op) (sched : List TChoice) :
+    (afterDisconnectT (texec (TSys.init db prog) sched)).keysOk ∧
+    (afterInterruptedDisconnectT (texec (TSys.init db prog) sched)).keysOk := by
+  have hi := (KInv.init db prog hdb).exec sched
+  exact ⟨appendResults_keys _ _ hi.txn, hi.committed⟩
+
+/-- a new id is larger than every id already in the table (sqlite's rowid rule), so it never collides with a row of an
+    earlier run -/
+theorem new_id_is_fresh (ids : List Nat) : nextId ids ∉ ids ∧ ∀ x ∈ ids, x < nextId ids :=
+  ⟨nextId_not_mem ids, lt_nextId ids⟩
+
 /-! ### tables regenerated from the working tree -/
 
 /-- the limits the model's `classify` uses are those of the live response classes -/
@@ -370,6 +425,40 @@ theorem writer_retries_in_place :
     Gen.C11Tables.writerExecuteGuard = "not executed / executed = True" ∧ Gen.C11Tables.writerTaskDoneInFinally = true ∧
     Gen.C11Tables.disconnectAwaits =
       ["self._execute_queue.join", "self._executor_task", "self.connection.commit", "self.connection.close"] := by decide
+
+/-- the foreign keys of the live `DB_SCHEMA` (read back from sqlite) are the modelled ones (`Tables.fkOk`), plus two of tables
+    the handler never writes (`ecu`, `error_log`); `connect()` switches their enforcement on -/
+theorem schema_keys_agree :
+    Gen.C11Tables.foreignKeys =
+      [ ("address", "ecu", "ecu", "id", false),
+        ("discovery_result", "address", "address", "id", true), ("discovery_result", "run", "discovery_run", "id", true),
+        ("discovery_run", "meta", "run_meta", "id", false),
+        ("error_log", "meta", "run_meta", "id", true),
+        ("scan_result", "run", "scan_run", "id", true),
+        ("scan_run", "address", "address", "id", false), ("scan_run", "meta", "run_meta", "id", false),
+        ("session_transition", "run", "scan_run", "id", true) ] ∧
+    Gen.C11Tables.uniqueColumns = [("address", "url"), ("version", "schema")] ∧
+    "PRAGMA foreign_keys = 1" ∈ Gen.C11Tables.connectPragmas := by decide
+
+/-- the API calls of the working tree are the modelled ones (`Op.micros`, `Micro.stmt`, `Micro.assign`): assertions, awaited
+    statements, assignments from `lastrowid` and commits in this order; `insert_session_transition` does not commit;
+    the queued row and the session_transition row take their run from `self.scan_run` -/
+theorem api_steps_agree :
+    Gen.C11Tables.apiSteps =
+      [ ("insert_run_meta", ["assert:connection", "execute:INSERT:run_meta", "set:meta=lastrowid", "commit"]),
+        ("complete_run_meta", ["assert:connection", "assert:meta", "execute:UPDATE:run_meta", "commit"]),
+        ("insert_scan_run", ["assert:connection", "assert:meta", "execute:INSERT-OR-IGNORE:address", "execute:INSERT:scan_run",
+                             "set:scan_run=lastrowid", "set:target=target", "commit"]),
+        ("insert_scan_run_properties_pre", ["assert:connection", "assert:scan_run", "execute:UPDATE:scan_run", "commit"]),
+        ("complete_scan_run", ["assert:connection", "assert:scan_run", "execute:UPDATE:scan_run", "commit"]),
+        ("insert_discovery_run", ["assert:connection", "assert:meta", "execute:INSERT:discovery_run",
+                                  "set:discovery_run=lastrowid", "commit"]),
+        ("insert_discovery_result", ["assert:connection", "assert:discovery_run", "execute:INSERT-OR-IGNORE:address",
+                                     "execute:INSERT:discovery_result", "commit"]),
+        ("insert_scan_result", ["assert:connection", "assert:_execute_queue", "assert:scan_run", "put"]),
+        ("insert_session_transition", ["assert:connection", "execute:INSERT:session_transition"]) ] ∧
+    Gen.C11Tables.scanResultRunColumn = "self.scan_run" ∧ Gen.C11Tables.sessionTransitionRunColumn = "self.scan_run" := by
+  decide
 
 /-- with the unbounded queue `put` never finds the queue full, in any reachable or unreachable state ... -/
 theorem put_never_suspends (s : Sys) : queueFull Gen.C11Tables.queueMaxsize s = false := by
@@ -457,5 +546,29 @@ example :
     let s := finishWithGap (mexec (MSys.init [[mx1], [mx2]]) [.call 0, .call 1]) 0 [.finish 1]
     s.wire = [(0, [0x10, 0x03]), (1, [0x3E, 0x00])] ∧
     (afterDisconnectM s).map (·.req) = [[0x3E, 0x00], [0x10, 0x03]] := by decide
+
+/-! #### the other tables: witnesses -/
+
+/-- a lifecycle in order, on a file that already holds an earlier run (ids go on from there, the address row is reused);
+    the writer's `execute` fails once, then its `commit`; the run is cancelled before `complete_run_meta`.  `disconnect()`
+    writes the two queued rows and commits the session transition; an interrupted `disconnect()` leaves what the last
+    commit of the run task had made durable. -/
+example :
+    let db : Tables := ⟨[1], [(1, 7)], [(1, some 1, 1)], [], [], [(1, 1, 100)], [(1, 2)]⟩
+    let s := texec (TSys.init db [.runMeta, .scanRun 7, .scanResult 200, .sessionTransition 3, .scanResult 201, .completeRunMeta])
+      [.run, .run, .run, .run, .run, .run, .run, .run, .run, .get, .execFail, .execOk, .commitFail, .run, .run, .run, .run, .cancel]
+    db.fkOk ∧ db.keysOk ∧
+    afterDisconnectT s = ⟨[1, 2], [(1, 7)], [(1, some 1, 1), (2, some 1, 2)], [], [], [(1, 1, 100), (2, 2, 200), (3, 2, 201)], [(1, 2), (2, 3)]⟩ ∧
+    afterInterruptedDisconnectT s = ⟨[1, 2], [(1, 7)], [(1, some 1, 1), (2, some 1, 2)], [], [], [(1, 1, 100)], [(1, 2)]⟩ := by
+  refine ⟨?_, ?_, by decide, by decide⟩
+  · simp [Tables.fkOk, Tables.addressIds, Tables.scanRunIds, Tables.discoveryRunIds]
+  · simp [Tables.keysOk, Tables.addressIds, Tables.scanRunIds, Tables.discoveryRunIds, Tables.discoveryResultIds, Tables.scanResultIds]
+
+/-- API calls whose prerequisite is missing are refused and leave nothing dangling: a session transition and a scan result
+    before any scan run, a scan run before the run meta -/
+example :
+    let s := texec (TSys.init Tables.empty [.sessionTransition 3, .scanResult 1, .scanRun 7, .runMeta, .scanRun 7, .scanResult 2])
+      (List.replicate 14 .run)
+    afterDisconnectT s = ⟨[1], [(1, 7)], [(1, some 1, 1)], [], [], [(1, 1, 2)], []⟩ ∧ s.refused = 3 := by decide
 
 end Gallia.C11
